@@ -398,6 +398,17 @@ func (s *Storm) saturate(n int, phase string) (wg *sync.WaitGroup, ok bool) {
 func (s *Storm) Run(clients, perClient int, faults bool) {
 	k := s.k
 	max := int(s.max)
+	// phase 0 (half of the storms): a little sequential traffic on the fresh pool, so that the
+	// first hand-backs happen while most instances have never been taken
+	if s.r.Intn(2) == 0 {
+		n := 1 + s.r.Intn(3)
+		for i := 0; i < n; i++ {
+			rr := rand.New(rand.NewSource(s.r.Int63()))
+			s.fire(rr, s.genCall(rr, true), false, false, 0, nil)
+			s.Quiesce()
+		}
+		k.Count("storms_with_sequential_prelude", 1)
+	}
 	// phase 1: saturate, extra requests must wait
 	wg, ok := s.saturate(max, "first saturation")
 	if ok {
